@@ -24,6 +24,14 @@ DEEP_SB2 = ["ins:1;ins:5|ins:5|ins:3,ins:7,ins:9;size", "ins:1;ins:3,ins:7,ins:9
 
 def run(ctx):
     q = ctx.quick()
+    # Tier B: Refinable.tla (lock protocol of striped_set::refinable + StripedSet::resize: owner word, replaced lock array, re-validation in acquire(),
+    # quiescing the old locks).  Refuted: seeded change C16 (no lock-array re-check), no owner re-check, no quiescing
+    vlib.model_check_many(ctx, [dict(module_rel="set/Refinable.tla", cfg_rel="set/Refinable_q.cfg", workers=3),
+                                dict(module_rel="set/Refinable.tla", cfg_rel="set/Refinable_bad_NoArrayRecheck.cfg", workers=3, expect_violation="Exclusion"),
+                                dict(module_rel="set/Refinable.tla", cfg_rel="set/Refinable_bad_NoOwnerRecheck.cfg", workers=2, expect_violation="Exclusion"),
+                                dict(module_rel="set/Refinable.tla", cfg_rel="set/Refinable_bad_NoQuiesce.cfg", workers=2, expect_violation="Exclusion")] +
+                               ([] if q else [dict(module_rel="set/Refinable.tla", cfg_rel="set/Refinable_q3.cfg", workers=8, timeout=3000),
+                                              dict(module_rel="set/Refinable.tla", cfg_rel="set/Refinable_t.cfg", workers=12, timeout=5000, heap="24g")]), par=4)
     n = 1 if q else 8
     deep = [("dfs", 3000 if q else 300000, 2 if q else 3)]
     ps = GROW + [SC.gen_program(ctx.rng, VOC, keys=6).replace(";trav,size,check", ";size") for _ in range(n)]
